@@ -7,9 +7,9 @@ CONSTANTS
   Shapes = {{1, 2, 3, 5, 6, 7}, {1, 2, 3, 4, 5, 6}}
   Weights <- W2
   InVals <- V2
-  OrderKinds = {"BIOH", "IBHO"}
+  OrderKinds = {"BIOH"}
   ActSchemes <- SchemesTwo
-  LinkCaps = {5}
+  LinkCaps = {4}
   SealAtCap = FALSE
   Extra = 1
   Canonical = TRUE
